@@ -382,4 +382,37 @@ theorem int_cmp3ord : Cmp3Ord (fun a b : Int => sign (a - b)) (fun a b => a == b
   congr_l x y z := by simp only [sign]; split <;> split <;> (try split) <;> (try split) <;> (try split) <;> omega
   congr_r x y z := by simp only [sign]; split <;> split <;> (try split) <;> (try split) <;> (try split) <;> omega
 
+/-! ### only the SIGN of a component comparison matters -/
+
+theorem sign_eq_iff {x y : Int} (h : sign x = sign y) : (x < 0 ↔ y < 0) ∧ (x = 0 ↔ y = 0) ∧ (x > 0 ↔ y > 0) := by
+  unfold sign at h
+  split at h <;> split at h <;> (try split at h) <;> (try split at h) <;> omega
+
+theorem seqCmpI_sign_congr {c c' : α → α → Int} (hs : ∀ a b, sign (c a b) = sign (c' a b))
+    (l0 l1 : List α) : sign (seqCmpI c l0 l1) = sign (seqCmpI c' l0 l1) := by
+  induction l0 generalizing l1 with
+  | nil =>
+    cases l1 with
+    | nil => simp [seqCmpI_nil_nil]
+    | cons b u => simp [seqCmpI_nil_cons]
+  | cons a t ih =>
+    cases l1 with
+    | nil => simp [seqCmpI_cons_nil]
+    | cons b u =>
+      rw [seqCmpI_cons, seqCmpI_cons]
+      have h := sign_eq_iff (hs a b)
+      by_cases e : c a b = 0
+      · have e' : c' a b = 0 := h.2.1.mp e
+        simp [e, e', ih u]
+      · have e' : c' a b ≠ 0 := fun q => e (h.2.1.mpr q)
+        simp [e, e', hs a b]
+
+/-- a user-style comparison with results far from {-1, 0, 1} -/
+theorem scaled_int_cmp3ord : Cmp3Ord (fun a b : Int => (a - b) * 7) (fun a b => a == b) where
+  zero_iff a b := by simp; omega
+  anti a b := by constructor <;> intro h <;> omega
+  trans_lt x y z := by intro h1 h2; omega
+  congr_l x y z := by intro h; constructor <;> intro h' <;> omega
+  congr_r x y z := by intro h; constructor <;> intro h' <;> omega
+
 end XrayModel.Derive
